@@ -583,6 +583,7 @@ DB = "nostr_relay/storage/db.py"
 KV = "nostr_relay/storage/kv.py"
 
 MUTANTS = [
+    M("c07-finally-return", "nostr_relay/storage/db.py", "            await self.process_tags(connection, event)\n", "            try:\n                await self.process_tags(connection, event)\n            finally:\n                return\n", "C07.finally"),
     M("c07-kind-index-own-store", KV, "class KindIndex(Index):\n    prefix = b\"\\x02\"\n", "class KindIndex(Index):\n    prefix = b\"\\x02\"\n\n    def write(self, event, txn, operation=\"put\"):\n        SIDE.setdefault(event.kind, set()).add(event.id_bytes)\n", "C07.foreign"),
     M("c07-process-tags-own-txn", DB, "            if tags:\n                await conn.execute(\n                    self.tag_insert_query,",
       "            if tags:\n                async with self.db.begin() as conn:\n                  await conn.execute(\n                    self.tag_insert_query,", "C07.sqlregion", canary=True),
